@@ -20,7 +20,7 @@ cstree = { path = "/repo/cstree", features = ["derive"] }
 """
 
 
-def cargo_check(name, src, run=False):
+def cargo_check(name, src, run=False, release=False):
     """write the crate, `cargo build` it with JSON diagnostics.  Returns (errors, stdout-of-run)"""
     d = os.path.join(PROBE_DIR, name)
     os.makedirs(os.path.join(d, "src"), exist_ok=True)
@@ -33,7 +33,7 @@ def cargo_check(name, src, run=False):
     env = dict(R.ENV)
     env["CARGO_TARGET_DIR"] = os.path.join(R.BUILD, "target-probes")
     with R.Lock("cargo-probes"):
-        cmd = ["cargo", "build", "--offline", "--message-format=json"]
+        cmd = ["cargo", "build", "--offline", "--message-format=json"] + (["--release"] if release else [])
         p = subprocess.run(cmd, cwd=d, env=env, stdout=subprocess.PIPE, stderr=subprocess.PIPE, text=True, timeout=1800)
         errors = []
         other = []
@@ -66,7 +66,7 @@ def cargo_check(name, src, run=False):
             errors.append({"message": msg.get("message", ""), "lines": sorted(set(lines)), "code": (msg.get("code") or {}).get("code")})
         out = None
         if run and p.returncode == 0:
-            exe = os.path.join(env["CARGO_TARGET_DIR"], "debug", "probe")
+            exe = os.path.join(env["CARGO_TARGET_DIR"], "release" if release else "debug", "probe")
             q = subprocess.run([exe], stdout=subprocess.PIPE, stderr=subprocess.DEVNULL, text=True, timeout=600)
             out = q.stdout
     return {"rc": p.returncode, "errors": errors, "dep_errors": other, "stderr": p.stderr[-2000:], "run": out, "dir": d}
@@ -524,27 +524,43 @@ def probe_c17(prop, seed, tier):
         if line.startswith("E"):
             k, rest = line.split(" ", 1)
             table[int(k[1:])] = rest.strip()
-    # the far-out-of-range pass
-    begun, done = set(), {}
-    for line in (res["run"] or "").split("\n"):
-        if line.startswith("B"):
-            k, rest = line.split(" ", 1)
-            if rest.startswith("begin"):
-                begun.add(int(k[1:]))
-            elif rest.startswith("done"):
-                done[int(k[1:])] = rest[5:].strip()
-    for i, d in enumerate(table_defs):
-        what = None
-        if i in begun and i not in done:
-            what = (f"from_raw of a raw value far outside 0..{len(d['variants'])} neither panicked nor returned: the process was aborted "
-                    f"(an invalid enum value was produced) ({enum_desc(d)})")
-        elif i in done and done[i] != "[]":
-            what = f"from_raw accepts the out-of-range raw values {done[i]} ({enum_desc(d)})"
-        elif i not in begun and begun and i == max(begun) + 1 and max(begun) in done:
-            what = f"the probe stopped before the out-of-range pass of {enum_desc(d)}"
-        if what and len([o for o in out["oracle"] if "out-of-range" in o["what"] or "far outside" in o["what"]]) < 3:
-            path = R.write_replay(prop, f"oracle-range{i}", [enum_desc(d)], [what] + enum_rust(f"E{i}", d))
-            out["oracle"].append({"case": i, "prop": prop, "what": what, "line": 0, "n": 1, "replay": path})
+    # the far-out-of-range pass, in both profiles: the generated guard must not depend on debug assertions
+    src_tab, _ = build_crate17("c17good", table_defs, True)
+    res_rel = cargo_check("c17good", src_tab, run=True, release=True)
+    dist["profiles"] = ["debug", "release" if res_rel.get("run") is not None else "release: did not build"]
+    for profile, rr in (("debug", res), ("release", res_rel)):
+        begun, done = set(), {}
+        for line in (rr["run"] or "").split("\n"):
+            if line.startswith("B"):
+                k, rest = line.split(" ", 1)
+                if rest.startswith("begin"):
+                    begun.add(int(k[1:]))
+                elif rest.startswith("done"):
+                    done[int(k[1:])] = rest[5:].strip()
+        for i, d in enumerate(table_defs):
+            what = None
+            if i in begun and i not in done:
+                what = (f"[{profile} build] from_raw of a raw value far outside 0..{len(d['variants'])} neither panicked nor returned: the process was aborted "
+                        f"(an invalid enum value was produced) ({enum_desc(d)})")
+            elif i in done and done[i] != "[]":
+                what = f"[{profile} build] from_raw accepts the out-of-range raw values {done[i]} ({enum_desc(d)})"
+            elif i not in begun and begun and i == max(begun) + 1 and max(begun) in done:
+                what = f"[{profile} build] the probe stopped before the out-of-range pass of {enum_desc(d)}"
+            if what and len([o for o in out["oracle"] if "out-of-range" in o["what"] or "far outside" in o["what"]]) < 3:
+                path = R.write_replay(prop, f"oracle-range{i}-{profile}", [enum_desc(d)], [what] + enum_rust(f"E{i}", d))
+                out["oracle"].append({"case": i, "prop": prop, "what": what, "line": 0, "n": 1, "replay": path})
+        if profile == "release" and rr.get("run") is not None:
+            # the conversion table must not depend on the profile either
+            table_rel = {}
+            for line in (rr["run"] or "").split("\n"):
+                if line.startswith("E"):
+                    k, rest = line.split(" ", 1)
+                    table_rel[int(k[1:])] = rest.strip()
+            for i, d in enumerate(table_defs):
+                if i in table and table_rel.get(i) != table[i] and len(out["oracle"]) < 6:
+                    what = f"conversions of {enum_desc(d)} differ between the debug and the release build: {table[i]} vs {table_rel.get(i)}"
+                    path = R.write_replay(prop, f"oracle-profile{i}", [enum_desc(d)], [what] + enum_rust(f"E{i}", d))
+                    out["oracle"].append({"case": i, "prop": prop, "what": what, "line": 0, "n": 1, "replay": path})
     distinct = set()
     for i, d in enumerate(table_defs):
         impl = table.get(i, "<no output>")
